@@ -326,7 +326,7 @@ DICT_READ_NAMES = {
 # names that are not operations on an existing value (construction / class protocol / object protocol)
 NOT_OPERATIONS = {'__class_getitem__', '__init__', '__new__', '__init_subclass__', '__subclasshook__', '__class__', '__doc__',
                   '__hash__', '__getattribute__', '__setattr__', '__delattr__', '__dir__', '__format__', '__getstate__',
-                  '__reduce__', '__reduce_ex__', '__sizeof__', '__str__', '__ne__', '__le__', '__gt__', '__ge__'}
+                  '__reduce__', '__reduce_ex__', '__sizeof__', '__str__', '__ne__', '__lt__', '__le__', '__gt__', '__ge__'}
 
 
 # ---- the common body --------------------------------------------------------------------------------------------------
